@@ -120,6 +120,13 @@ REGRESSION_HISTORIES = [
     ["I CG 1 quad 2 | 0 0 0 0 | 4 1 | 0 0 |  |  | ", "S", "S"],
     ["I LBFGS 1 quad 1 | 0 | 1/4 | 3 | 5 |  | ", "S", "S"],
 ]
+# witnesses of Properties_C10.v that the real code must reproduce (checked in main, and replayed step by step by the model):
+# default iRprop+ on x^2 + 2y^2 - x - y/2 from (4, -2), initial step size 4: values 21, 7, 89, 36 (C10_ex_irprop_plus_stale_step);
+# Rprop on -x in the box [0, 1] with minDelta = maxDelta = 1: step size 1/2 after one step (C10_ex_rprop_box_delta_below_min_refuted)
+WITNESS_HISTORIES = [
+    (["I RPROP 0 quad 2 | 2 0 0 4 | 1 1/2 | 4 -2 | 1 1 1 4 |  | ", "S", "S", "S"], "val", [[21.0], [7.0], [89.0], [36.0]], "C10_ex_irprop_plus_stale_step"),
+    (["I RPROP 0 boxquad 1 | 0 | 1 | 1/2 | 1 1 1 1 1 1 | 0 | 1", "S"], "delta", [[1.0], [0.5]], "C10_ex_rprop_box_delta_below_min_refuted"),
+]
 
 def gen_exact(rng):
     """dyadic strictly convex quadratic; with probability 0.7 the l1-norm of the first gradient is a power of two, so that
@@ -494,6 +501,36 @@ def gen_lbfgs(rng, big=False):
     if rng.random() < 0.4: ops.insert(rng.randint(1, k), "W")
     return [hd] + ops
 
+def gen_rprop(rng, big=False):
+    """Rprop / Adam histories of single steps (every step is replayed by the model).  Rprop case splits: the four variants
+    (freezing / backtracking / old-value flags), sign changes of the partial derivatives (large initial step size on a
+    quadratic: overshoots), step-size clamps (minDelta / maxDelta next to the initial step size), box-constrained
+    objectives with the start on a bound (infeasible candidate steps)"""
+    if rng.random() < 0.25:
+        kind = rng.choice(["quad", "rosen"]); opt = "ADAM"
+    else:
+        kind = rng.choice(["quad", "quad", "rosen", "boxquad", "boxquad", "boxrosen"]); opt = "RPROP"
+    box = kind.startswith("box"); lower = upper = ()
+    if kind.endswith("quad"):
+        n = rng.randint(1, 5); A = spd(rng, n, rng.choice([1, 10, 100])); b = [rng.gauss(0, 3) for _ in range(n)]; x0 = [rng.uniform(-3, 3) for _ in range(n)]
+        Af = [v for r in A for v in r]
+    else:
+        n = rng.randint(2, 4); p_ = rng.choice([1.0, 10.0, 100.0]); Af = [p_] + [0.0] * (n * n - 1); b = [0.0] * n; x0 = [rng.uniform(-1.5, 1.5) for _ in range(n)]
+    if box:
+        lower = [x - (0.0 if rng.random() < 0.3 else rng.uniform(0, 1.0)) for x in x0]
+        upper = [x + (0.0 if rng.random() < 0.3 else rng.uniform(0.01, 1.0)) for x in x0]
+    if opt == "ADAM": params = (rng.choice([0.001, 0.01, 0.1, 0.5]),)
+    else:
+        variant = rng.choice([(0, 0, 0), (1, 0, 0), (1, 1, 0), (1, 1, 1), (1, 1, 1), (0, 1, 1), (0, 1, 0)])      # Rprop-, iRprop-, Rprop+, iRprop+ (default), two unnamed combinations
+        d0 = rng.choice([0.01, 0.1, 0.5, 1.0, 2.0])
+        params = variant + (d0,)
+        if rng.random() < 0.5: params += (d0 * rng.choice([1.0, 0.5, 0.25, 0.01]), d0 * rng.choice([1.0, 1.2, 1.5, 2.0, 100.0]))
+    hd = header(opt, 0, kind, n, Af, b, x0, params, lower, upper, fmt=hx)
+    k = rng.randint(4, 14)
+    ops = ["S"] * k
+    if rng.random() < 0.4: ops.insert(rng.randint(1, k), "W")
+    return [hd] + ops
+
 def build_replays(cases, io):
     """[(case index, line index, model line, previous state, new state)] for every single step S of an L-BFGS history
     whose predecessor printed a state: the step is replayed by the model's updateHist + direction rule from the
@@ -501,12 +538,28 @@ def build_replays(cases, io):
     reps = []
     for ci, c in enumerate(cases):
         t = c[0].split()
-        if t[0] != "I" or t[1] != "LBFGS": continue
+        if t[0] != "I" or t[1] not in ("LBFGS", "ADAM", "RPROP"): continue
         out, rc, _ = io[ci]
         h = None
         for idx in range(1, min(len(c), len(out))):
             if c[idx] != "S" or out[idx].startswith("EXC") or out[idx - 1].startswith("EXC"): continue
             pre, post = kv(out[idx - 1]), kv(out[idx])
+            if t[1] in ("ADAM", "RPROP"):
+                if ("m1" if t[1] == "ADAM" else "delta") not in pre or pre.get("fin") != "1" or post.get("fin") != "1" or "nan" in out[idx]: continue
+                if h is None: h = parse_header(c[0])
+                H = lambda k_: " ".join(hx(v) for v in fvec(k_))
+                if t[1] == "ADAM":
+                    line = "A %d | %s | %s | %s | %s | %s | %s %s %s %s | %s | %s" % (h["n"], H(pre["m1"]), H(pre["m2"]), pre["cnt"], H(pre["der"]), H(pre["pt"]),
+                                                                              pre["b1"], pre["b2"], pre["eps"], pre["eta"], post["val"], H(post["der"]))
+                else:
+                    box = h["kind"].startswith("box")
+                    line = "P %d %d | %s | %s | %s | %s | %s %s %s %s | %s | %s | %s | %s %s %s | %s | %s | %s | %s" % (
+                        h["n"], 1 if box else 0, H(pre["delta"]), H(pre["deltaw"]), H(pre["oder"]), pre["oval"], pre["inc"], pre["dec"], pre["dmax"], pre["dmin"],
+                        H(pre["pt"]), pre["val"], H(pre["der"]), pre["frz"], pre["bt"], pre["ov"],
+                        " ".join(hx(v) for v in h["lower"]) if box else "", " ".join(hx(v) for v in h["upper"]) if box else "", post["val"], H(post["der"]))
+                prev2 = kv(out[idx - 2]) if idx >= 2 and c[idx - 1] == "S" and not out[idx - 2].startswith("EXC") else None
+                reps.append((ci, idx, line, pre, post, (t[1], h, prev2)))
+                continue
             if "hs" not in pre or "hs" not in post or pre.get("fin") != "1" or post.get("fin") != "1": continue
             if h is None: h = parse_header(c[0])
             n = h["n"]; box = h["kind"].startswith("box")
@@ -556,6 +609,64 @@ def judge_lbfgs_replay(mout, pre, post, aux):
     err = max([abs(float(p_) - q) for p_, q in zip(dm, d_impl)] + [0.0])
     if not err <= REPLAY_TOL * sc: return cls, "direction: model %s, implementation %s (max difference %.3g > %g * %.3g)" % ([float(v) for v in dm], d_impl, err, REPLAY_TOL, sc), mon
     return cls, None, mon
+
+def vec_close(a, b, tol=REPLAY_TOL):
+    """(bitwise equal, within tol relative to the largest entry)"""
+    if len(a) != len(b): return False, False
+    bit = all(x == y or (x != x and y != y) for x, y in zip(a, b))
+    sc = max([abs(x) for x in a] + [1e-300])
+    return bit, all(abs(x - y) <= tol * sc for x, y in zip(a, b))
+
+def judge_adam_replay(mout, pre, post, aux):
+    m = kv(mout); mon = []
+    if "pt" not in m: return "diff", "model printed `%s`" % mout[:100], mon
+    if m["cnt"] != post["cnt"]: return "adam", "m_counter: model %s, implementation %s" % (m["cnt"], post["cnt"]), mon
+    if any(v < 0 for v in fvec(post["m2"])): mon.append(("monitor:adam-second-moment-negative", "second moment estimate %s has a negative entry" % fvec(post["m2"])))
+    allbit = True
+    for k_, name in (("m1", "m_avgGrad"), ("m2", "m_secondMoment"), ("pt", "point")):
+        bit, close = vec_close(fvec(m[k_]), fvec(post[k_])); allbit = allbit and bit
+        if not close: return "adam", "%s: model %s, implementation %s" % (name, fvec(m[k_]), fvec(post[k_])), mon
+    return "adam/" + ("bitwise" if allbit else "1e-10"), None, mon
+
+def judge_rprop_replay(mout, pre, post, aux):
+    """Monitor (implementation only): step sizes positive; within [minDelta, maxDelta] on unconstrained objectives when they
+    started there; iRprop+ (all three flags, unconstrained): after a step that increased the value every coordinate whose
+    partial derivative changed sign is back at its previous position."""
+    opt, h, prev2 = aux; m = kv(mout); mon = []
+    box = h["kind"].startswith("box")
+    delta = fvec(post["delta"]); dmin, dmax = fh(post["dmin"]), fh(post["dmax"])
+    variant = {"000": "Rprop-", "100": "iRprop-", "110": "Rprop+", "111": "iRprop+"}.get(pre["frz"] + pre["bt"] + pre["ov"], "flags" + pre["frz"] + pre["bt"] + pre["ov"])
+    if any(not d > 0 for d in delta): mon.append(("monitor:rprop-delta-positive", "step sizes %s are not all positive" % delta))
+    start_in = all(dmin <= d <= dmax for d in fvec(pre["delta"]))
+    obs = ""
+    if start_in and any(not (dmin <= d <= dmax) for d in delta):
+        if box: obs = "/delta-below-minDelta-after-infeasible-step"
+        else: mon.append(("monitor:rprop-delta-range", "step sizes %s left [minDelta, maxDelta] = [%r, %r] (before the step: %s)" % (delta, dmin, dmax, fvec(pre["delta"]))))
+    if variant == "iRprop+" and not box and prev2 is not None and fh(pre["val"]) > fh(prev2["val"]):
+        g, og = fvec(pre["der"]), fvec(pre["oder"]); p0, p2 = fvec(prev2["pt"]), fvec(post["pt"])
+        for i in range(len(g)):
+            if g[i] * og[i] < 0 and not abs(p2[i] - p0[i]) <= 1e-12 * max(1.0, abs(p0[i])):
+                mon.append(("monitor:irprop-plus-undo", "the step before increased the value (%r -> %r) and the partial derivative %d changed sign, but the coordinate is at %r instead of back at %r" % (fh(prev2["val"]), fh(pre["val"]), i, p2[i], p0[i]))); break
+    if "pt" not in m: return "diff", "model printed `%s`" % mout[:100], mon
+    g, og = fvec(pre["der"]), fvec(pre["oder"])
+    signs = "".join(sorted(set("+" if a * b_ > 0 else "-" if a * b_ < 0 else "0" for a, b_ in zip(g, og))))
+    dwp = fvec(pre["deltaw"])
+    if pre["bt"] == "1" and pre["ov"] == "1" and not fh(pre["oval"]) < fh(pre["val"]) and any(a * b_ < 0 and w != 0 for a, b_, w in zip(g, og, dwp)):
+        obs += "/stale-step-repeated"
+    clamp = ("/clamp-max" if any(d == dmax for d in delta) else "") + ("/clamp-min" if dmin > 0 and any(d == dmin for d in delta) else "")
+    allbit = True
+    for k_, name in (("pt", "point"), ("delta", "m_delta"), ("deltaw", "m_deltaw"), ("oder", "m_oldDerivative")):
+        bit, close = vec_close(fvec(m[k_]), fvec(post[k_])); allbit = allbit and bit
+        if not close: return "rprop", "%s: model (double instance) %s, implementation %s" % (name, fvec(m[k_]), fvec(post[k_])), mon
+    if fh(m["oval"]) != fh(post["oval"]): return "rprop", "m_oldValue: model %s, implementation %s" % (m["oval"], post["oval"]), mon
+    qok = all(vec_close(fvec(m["q" + k_]), fvec(post[k_]))[1] for k_ in ("pt", "delta", "deltaw", "oder"))
+    if not qok:
+        # the rational instance decides the feasibility test and the sign of a product exactly; the doubles round
+        x = fvec(post["pt"]); near = box and any(min(abs(x[i] + 1e-13 - h["lower"][i]), abs(x[i] - 1e-13 - h["upper"][i])) <= 1e-9 for i in range(len(x)))
+        if not near:
+            return "rprop", "rational instance: point %s delta %s, implementation point %s delta %s" % (fvec(m["qpt"]), fvec(m["qdelta"]), fvec(post["pt"]), delta), mon
+        return "rprop/%s/rational-instance-rounding-sensitive" % variant, None, mon
+    return "rprop/%s/signs%s%s%s%s/%s" % (variant, signs, clamp, "/box" if box else "", obs, "bitwise" if allbit else "1e-10"), None, mon
 
 def read_cases(path):
     cases = []
@@ -615,9 +726,11 @@ def main():
         if os.path.isdir(cdir):
             for f in sorted(os.listdir(cdir)): cases += read_cases(os.path.join(cdir, f))
         cases += [list(c) for c in REGRESSION_HISTORIES]
+        cases += [list(w[0]) for w in WITNESS_HISTORIES]
         cases += [gen_exact(rng) for _ in range(700 if not big else 6000)]
         cases += [gen_float(rng, big) for _ in range(900 if not big else 6000)]
         cases += [gen_lbfgs(rng, big) for _ in range(400 if not big else 4000)]
+        cases += [gen_rprop(rng, big) for _ in range(400 if not big else 4000)]
 
 
     # ------------------------------------------------------------------ single line-search calls: implementation first, its trial
@@ -684,6 +797,12 @@ def main():
 
     stats = {"exact": 0, "tol": 0}
     mo, io = run_both(cases, "all")
+    if not ck.replay:
+        for wc, key_, want, name_ in WITNESS_HISTORIES:
+            ci = next(i for i, c in enumerate(cases) if c == list(wc))
+            got = [fvec(kv(o)[key_]) if key_ in kv(o) else None for o in io[ci][0]]
+            ck.oblige("the C++ reproduces the witness %s of Properties_C10.v (%s along `%s`: %s)" % (name_, key_, wc[0][:60], want), got == want,
+                      "" if got == want else "the implementation gives %s: the code changed, the model and the Example must follow" % got)
     mon = {}      # key -> list of (case index, message)
     dis = []
     for ci, c in enumerate(cases):
@@ -754,30 +873,38 @@ def main():
     # implementation's own previous state (L-BFGS: updateHist + multBInv / getBoxConstrainedDirection)
     reps = build_replays(cases, io)
     rout = run_cases(model, [[r[2]] for r in reps], os.path.join(tmpd, "replay_model.txt"))
-    rstats = {}; rdis = []; rmon = {}
+    RK = {"B": ("lbfgs", "C10LbfgsModel (lb_update_hist / lb_mult_binv / lb_box_dir) vs LBFGS.cpp (updateHist / multBInv / getBoxConstrainedDirection)",
+                "L-BFGS directions (descent direction; point + direction inside the box)"),
+          "A": ("adam", "C10AdamRprop (g_adam_step) vs Adam.h (step)", "Adam steps (second-moment estimate not negative)"),
+          "P": ("rprop", "C10AdamRprop (g_rprop_step: double and rational instance) vs Rprop.cpp (step)",
+                "Rprop steps (step sizes positive, inside [minDelta, maxDelta] on unconstrained objectives; iRprop+ takes back the coordinates whose derivative changed sign after an increase)")}
+    rstats = {k_: {} for k_ in RK}; rdis = {k_: [] for k_ in RK}; rmon = {k_: {} for k_ in RK}; rcount = {k_: 0 for k_ in RK}
     for ri, ((ci, idx, line, pre, post, aux), (o_, rc_, e_)) in enumerate(zip(reps, rout)):
         if rc_ != 0 or not o_: raise RuntimeError("model driver failed on the replay line %s: %s" % (line[:300], e_))
-        cls, diff, msgs = judge_lbfgs_replay(o_[0], pre, post, aux)
-        rstats[cls] = rstats.get(cls, 0) + 1
-        for key, msg in msgs[:1]: rmon.setdefault(key, []).append((ri, msg))
-        if diff: rdis.append((ri, diff))
+        kind_ = line[0]; rcount[kind_] += 1
+        cls, diff, msgs = (judge_lbfgs_replay if kind_ == "B" else judge_adam_replay if kind_ == "A" else judge_rprop_replay)(o_[0], pre, post, aux)
+        rstats[kind_][cls] = rstats[kind_].get(cls, 0) + 1
+        for key, msg in msgs[:1]: rmon[kind_].setdefault(key, []).append((ri, msg))
+        if diff: rdis[kind_].append((ri, diff))
     def replay_obj(ri, key):
         ci, idx, line, pre, post, aux = reps[ri]
         cf = ck.write_replay("case_%s_%d.txt" % (re.sub(r"[^A-Za-z0-9]+", "_", key)[:60], ri), "\n".join(cases[ci][:idx + 1]) + "\n")
         return {"case_file": cf, "case": cases[ci][:idx + 1], "step_replayed": "line %d" % idx, "implementation_state_before": io[ci][0][idx - 1], "implementation_state_after": io[ci][0][idx],
                 "model_input": line, "model_output": rout[ri][0][0], "replay_cmd": "python3 tools/c10.py --replay %s" % cf}
-    for key in sorted(rmon):
-        ri, msg = rmon[key][0]
-        ck.violation(key, replay_obj(ri, key), "spec monitor fails on the implementation's direction (%d steps): %s" % (len(rmon[key]), msg))
-    n_unknown_r = sum(len(v) for k, v in rmon.items() if ck.match_known(k) is None)
-    ck.oblige("spec monitors on %d L-BFGS directions (descent direction; point + direction inside the box)" % len(reps), n_unknown_r == 0, "" if n_unknown_r == 0 else "keys %s" % sorted(rmon)[:4])
-    if rdis and n_unknown_r == 0:
-        ri, diff = rdis[0]; rp = replay_obj(ri, "correspondence-lbfgs"); rp["difference"] = diff
-        rp["broken"] = "correspondence C10LbfgsModel (lb_update_hist / lb_mult_binv / lb_box_dir) vs LBFGS.cpp (updateHist / multBInv / getBoxConstrainedDirection)"
-        ck.violation("correspondence-lbfgs", rp, "correspondence of the L-BFGS model no longer checks (%d of %d replayed steps differ, first: %s); the spec monitors pass on every explored input" % (len(rdis), len(reps), diff), no_input=True)
-    ck.oblige("correspondence C10LbfgsModel (history update, two-loop recursion, box direction) vs LBFGS.cpp on %d steps replayed from the implementation's own state (%s)" % (
-        len(reps), ", ".join("%s %d" % kv_ for kv_ in sorted(rstats.items()))), not rdis, "" if not rdis else "%d disagreements, first: %s" % (len(rdis), rdis[0][1]))
-    ck.cov["lbfgs_replayed_steps"] = rstats
+    for kind_, (nm, what, monwhat) in RK.items():
+        for key in sorted(rmon[kind_]):
+            ri, msg = rmon[kind_][key][0]
+            ck.violation(key, replay_obj(ri, key), "spec monitor fails on the implementation (%d steps): %s" % (len(rmon[kind_][key]), msg))
+        n_unknown_r = sum(len(v) for k, v in rmon[kind_].items() if ck.match_known(k) is None)
+        ck.oblige("spec monitors on %d %s" % (rcount[kind_], monwhat), n_unknown_r == 0, "" if n_unknown_r == 0 else "keys %s" % sorted(rmon[kind_])[:4])
+        if rdis[kind_] and n_unknown_r == 0:
+            ri, diff = rdis[kind_][0]; rp = replay_obj(ri, "correspondence-" + nm); rp["difference"] = diff
+            rp["broken"] = "correspondence " + what
+            ck.violation("correspondence-" + nm, rp, "correspondence %s no longer checks (%d of %d replayed steps differ, first: %s); the spec monitors pass on every explored input" % (what, len(rdis[kind_]), rcount[kind_], diff), no_input=True)
+        ck.oblige("correspondence %s on %d steps replayed from the implementation's own previous state (%s)" % (
+            what, rcount[kind_], ", ".join("%s %d" % kv_ for kv_ in sorted(rstats[kind_].items()))[:1500]), not rdis[kind_],
+            "" if not rdis[kind_] else "%d disagreements, first: %s" % (len(rdis[kind_]), rdis[kind_][0][1]))
+        ck.cov[nm + "_replayed_steps"] = rstats[kind_]
 
     # ------------------------------------------------------------------ coverage
     steps = sum(steps_of(l) for c in cases for l in c[1:])
